@@ -40,6 +40,10 @@ func main() {
 		// a panic that escapes the library into a direct oracle is a finding, not a reason to lose the run
 		defer func() {
 			if r := recover(); r != nil {
+				if _, ok := r.(stopEarly); ok {
+					c.Note("stopped generating after %d oracle failures: the property is decided", c.failTotal)
+					return
+				}
 				st := string(debug.Stack())
 				if i := strings.Index(st, "go.lstv.dev/util/"); i >= 0 {
 					st = st[i:]
@@ -50,6 +54,7 @@ func main() {
 				c.Fail(prop+".oracle.panic", "", "panic while a direct oracle was calling the library: %v; at %s", r, st)
 			}
 		}()
+		c.mainG = goid()
 		f(c)
 	}()
 	c.Finish(outdir)
